@@ -19,12 +19,16 @@ structure PCtx where
   loc : String → Option Nat         -- word address of each variable in scope
   consts : List (Int × String)      -- the final constant pool
   nlocals : Nat                     -- frame offsets below this hold local variables
-  link : Word                       -- the return address stored in the link slot `sp + S`
+  hi : Nat → Word                   -- the memory at and above the link slot `sp + S` (caller frames; never written)
+  gnames : List String              -- global names that no local of this instance may hide
+  dep : Nat                         -- nesting depth of this instance
 
 def PCtx.S (K : PCtx) : Nat := (frameOf K.out K.ctx.frame).size
 /-- Address of the frame slot with (non-negative) frame offset `k`. -/
 def PCtx.slot (K : PCtx) (k : Nat) : Nat := K.sp + K.S - 1 - k
 def PCtx.low (K : PCtx) (c : Code) : List Dir := lowerCode K.out c
+/-- The return address stored in the link slot `sp + S`. -/
+def PCtx.link (K : PCtx) : Word := K.hi (K.sp + K.S)
 
 structure PCtx.WF (K : PCtx) : Prop where
   nodup : (labelNames K.env.ds).Nodup
@@ -62,8 +66,13 @@ structure Rep (K : PCtx) (σ : X.St) (mem : Mem) : Prop where
     ∃ a, K.loc n = some a ∧ a < memWords ∧ mem.read a = w
   consts : ∀ v l j k, (v, l) ∈ K.consts → K.env.ds[j]? = some (.label k l) →
     mem.read (K.env.addr j / 4) = IAm.W v
-  locs : ∀ n, IsVar K.xc σ n → ∃ a, K.loc n = some a
-  link : mem.read (K.sp + K.S) = K.link
+  locs : ∀ n, IsVar K.xc σ n → ∃ a, K.loc n = some a ∧ a < K.sp + K.S
+  above : ∀ a, K.sp + K.S ≤ a → mem.read a = K.hi a
+  gvis : ∀ n, n ∈ K.gnames → σ.locals.lookup n = none
+  depth : σ.depth = K.dep
+
+theorem Rep.link {K : PCtx} {σ : X.St} {mem : Mem} (h : Rep K σ mem) : mem.read (K.sp + K.S) = K.link :=
+  h.above _ (Nat.le_refl _)
 
 theorem Rep.valsOk {K : PCtx} {σ : X.St} {mem : Mem} (h : Rep K σ mem) : ValsOk K.ρ K.xc σ :=
   fun n w hn => (h.vals n w hn).read
@@ -71,7 +80,8 @@ theorem Rep.valsOk {K : PCtx} {σ : X.St} {mem : Mem} (h : Rep K σ mem) : ValsO
 theorem Rep.same {K : PCtx} {σ σ' : X.St} {mem : Mem} (h : Rep K σ mem) (hs : SameVars σ σ') : Rep K σ' mem :=
   ⟨h.sp, fun n w hn => by have := h.vals n w hn; unfold ValBound at this ⊢; rw [hs.2.1]; exact this,
    fun n w hn hr => h.vars n w hn (by rw [← readName_same K.xc σ σ' n hs]; exact hr), h.consts,
-   fun n hv => h.locs n (by unfold IsVar at hv ⊢; rw [← hs.2.1]; exact hv), h.link⟩
+   fun n hv => h.locs n (by unfold IsVar at hv ⊢; rw [← hs.2.1]; exact hv), h.above,
+   fun n hn => by rw [hs.2.1]; exact h.gvis n hn, by rw [hs.2.2.2.2.2]; exact h.depth⟩
 
 /-- Memory changed at most in the frame slots with offsets in `[lo, hi)`. -/
 def Frm (K : PCtx) (lo hi : Nat) (mem mem' : Mem) : Prop :=
@@ -93,9 +103,9 @@ theorem Rep.frame {K : PCtx} (wf : K.WF) {σ : X.St} {mem mem' : Mem} {lo hi : N
     intro k h1 h2
     unfold PCtx.slot
     omega
-  refine ⟨?_, h.vals, ?_, ?_, h.locs, ?_⟩
+  refine ⟨?_, h.vals, ?_, ?_, h.locs, ?_, h.gvis, h.depth⟩
   rotate_left 3
-  · rw [key (K.sp + K.S) (Or.inr (by omega))]; exact h.link
+  · intro a ha; rw [key a (Or.inr (by omega))]; exact h.above a ha
   · rw [key 1 (Or.inl (by have := wf.sp_ge; omega))]; exact h.sp
   · intro n w hn hr
     obtain ⟨a, ha, hlt, hv⟩ := h.vars n w hn hr
